@@ -85,13 +85,11 @@ def laminarSymbols (rs : List NRange) : Bool := allPairs symRel rs
 
 /-! ### Hypotheses about the syntax tree (to be discharged by the lexer / parser models)
 
-    `w` is the number of columns one char occupies: `one` for the lexer as pinned (columns count
-    runes), `u16w` once columns count UTF-16 units (repo_patches/fix-utf16-columns.diff). -/
+    `w` is the number of columns one char occupies: `one` for the syntax tree (the lexer's
+    columns count runes), `u16w` for columns that count UTF-16 units (what LSP wants; the
+    server converts at the protocol boundary: repo_patches/fix-utf16-positions.diff). -/
 
 def one : Char → Nat := fun _ => 1
-
-/-- The column unit of the tree. -/
-def unitOf (utf16 : Bool) : Char → Nat := if utf16 then u16w else one
 
 /-- `p` is a position of the text: its line exists and its column is reached after a whole
     number of chars of that line. -/
@@ -148,8 +146,8 @@ def directiveRanges : Directive → List Rng
   | .defaultCommodity _ _ r => [r]
 
 /-- Every position range the parser copies from token positions into the tree.  (Tag ranges
-    are not among them: parseTags computes them by adding offsets inside the comment text to
-    the comment's column, see `tag_byte_offsets_counterexample`.) -/
+    are not among them: parseTags computes them by adding the rune count of the comment text
+    before the tag to the comment's column, see `pinned_tag_byte_offsets_counterexample`.) -/
 def nodeRanges (j : Journal) : List Rng :=
   j.transactions.flatMap txRanges ++ j.directives.flatMap directiveRanges ++ j.includes.map (·.range)
 
@@ -159,10 +157,14 @@ def nodeRanges (j : Journal) : List Rng :=
 def TreePositionsSound (w : Char → Nat) (doc : Txt) (j : Journal) : Bool :=
   (nodeRanges j).all fun r => r.stop == Pos.zero || rngSound w doc r
 
-/-- The guard under which a range of the tree converts to a well-formed LSP range: it has an
-    End, every component fits `uint32`, and — while columns count runes — no rune outside the
-    BMP precedes either end on its line. -/
-def convGuard (utf16 : Bool) (doc : Txt) (r : Rng) : Bool :=
-  r.stop != Pos.zero && rngSmall r && (utf16 || (bmpBefore doc r.start && bmpBefore doc r.stop))
+/-- The range has an End (the name ranges of account / commodity directives have none; no
+    feature converts them any more). -/
+def hasEnd (r : Rng) : Bool := r.stop != Pos.zero
+
+/-- Every line number and every UTF-16 offset of the document survives the conversion to
+    `uint32` (a hypothesis on the document alone: fewer than 2³² lines, each shorter than 2³²
+    UTF-16 units). -/
+def docSmall (doc : Txt) : Bool :=
+  decide ((lines doc).length < 4294967296) && (lines doc).all fun ln => decide (u16len ln < 4294967296)
 
 end HL.RangeSpec
